@@ -208,7 +208,7 @@ PROFILES = ("mixed", "reset", "recv", "limits", "queue", "shutdown", "legal", "i
 
 
 def correspond_store(rep, tier, seed, profiles=PROFILES, extra=()):
-    per = 36 if tier == "quick" else 800
+    per = 36 if tier == "quick" else 600
     steps = 100 if tier == "quick" else 150
     all_cases, all_scs, hist = [], [], {}
     scs_in = list(extra)
